@@ -48,13 +48,36 @@ def serve():
         if not line:
             continue
         req = json.loads(line)
+        workdir = None
+        if req.get("files") or req.get("file_versions"):
+            # include files for this history: a scratch working directory outside /repo and /verif, removed afterwards
+            import tempfile
+            workdir = tempfile.mkdtemp(prefix="cocosim-zy-")
+            for name, text in sorted((req.get("files") or {}).items()):
+                full = os.path.join(workdir, name)
+                os.makedirs(os.path.dirname(full), exist_ok=True)
+                with open(full, "w") as f:
+                    f.write(text)
         r, wfd = os.pipe()
         pid = os.fork()
         if pid == 0:
             os.close(r)
             signal.alarm(int(req.get("timeout", 60)))
             try:
-                res = [assemble(p) for p in req["history"]]
+                if workdir:
+                    os.chdir(workdir)
+                res = []
+                versions = req.get("file_versions") or []
+                for k, p in enumerate(req["history"]):
+                    # the user edits a file between two assemblies in the same process: text, or None = delete
+                    for name, text in sorted((versions[k] if k < len(versions) and versions[k] else {}).items()):
+                        if text is None:
+                            if os.path.exists(name):
+                                os.remove(name)
+                        else:
+                            with open(name, "w") as f:
+                                f.write(text)
+                    res.append(assemble(p))
                 data = json.dumps({"results": res, "hashseed": os.environ.get("PYTHONHASHSEED")})
             except BaseException as e:  # noqa
                 data = json.dumps({"error": "%s: %s" % (type(e).__name__, e)})
@@ -65,6 +88,9 @@ def serve():
         with os.fdopen(r) as f:
             data = f.read()
         os.waitpid(pid, 0)
+        if workdir:
+            import shutil
+            shutil.rmtree(workdir, ignore_errors=True)
         sys.stdout.write((data or json.dumps({"error": "child died without an answer"})) + "\n")
         sys.stdout.flush()
 
